@@ -125,13 +125,22 @@ theorem media_attrs_safe (A : CAtoms) (abs absSet : String → String) (el capti
 
 /-- **C05.** An embed placeholder: the wrapper carries exactly the three markers the distiller
 writes; below it every attribute is safe and no script or style element survives. -/
-theorem embed_placeholder_inert (type id : String) (el : Node) :
-    (embedTree type id el).attrs = [⟨"class", "embed-placeholder"⟩, ⟨"data-type", type⟩, ⟨"data-id", id⟩] ∧
-    (embedTree type id el).tag = "div" ∧
-    allAttrsSafeL (embedTree type id el).kids = true ∧
-    (∀ k ∈ (embedTree type id el).kids,
+theorem embed_placeholder_inert (A : CAtoms) (type id : String) (el : Node) :
+    (embedTree A type id el).attrs = [⟨"class", "embed-placeholder"⟩, ⟨"data-type", type⟩, ⟨"data-id", id⟩] ∧
+    (embedTree A type id el).tag = "div" ∧
+    allAttrsSafeL (embedTree A type id el).kids = true ∧
+    (∀ k ∈ (embedTree A type id el).kids,
       (k.tag = "blockquote" ∨ k.tag = "iframe") ∧ ∀ t ∈ tagsL k.kids, t ≠ "script" ∧ t ≠ "style") :=
-  ⟨rfl, rfl, embedKids_safe el, embedKids_no_script el⟩
+  ⟨rfl, rfl, embedKids_safe A el, embedKids_no_script A el⟩
+
+/-- **C05.** SVG / MathML elements that carry the name of an HTML raw text element (their character
+data would be serialised unescaped and come back as markup) are neither collected into table and
+caption clones nor left below an embedded element. -/
+theorem foreign_raw_text_kept_out (A : CAtoms) (i : Nat) (t : String) (attrs : List Attr) (ks : List Node)
+    (h : A.foreignRaw i = true) :
+    outputIds A (.elem i t attrs ks) = [] ∧
+    ∀ el, ∀ j ∈ elemIdsL (dropScriptStyle A el).kids, A.foreignRaw j = false :=
+  ⟨outputIds_hidden A i t attrs ks (Or.inr (Or.inr (Or.inr h))), fun el => dropScriptStyle_kids_noForeign A el⟩
 
 /-- **C06.** Image and video clones: every `src` of img/source/track/video and every `srcset` is
 empty or an image of the resolver, the video's own poster too; table and caption clones: all four
@@ -154,7 +163,7 @@ theorem table_clone_visible_only (A : CAtoms) (abs absSet : String → String) (
 theorem hidden_not_collected (A : CAtoms) (i : Nat) (t : String) (attrs : List Attr) (ks : List Node)
     (h : visible A i t attrs = false ∨ t = "script" ∨ t = "style") :
     outputIds A (.elem i t attrs ks) = [] :=
-  outputIds_hidden A i t attrs ks h
+  outputIds_hidden A i t attrs ks (by rcases h with h | h | h <;> simp [h])
 
 /-- **C09.** What an image / figure contributes to ContentImages is, in document order, src and
 srcset URLs of elements of the very clone its HTML view serialises; likewise for a table (`img` and
@@ -213,7 +222,10 @@ example : String.ofList (imageOutput (fun s => "http://e/" ++ s) (fun s => "S(" 
     "<picture><source srcset=\"S(a.webp 1x)\"/><img src=\"http://e/http://e/b.jpg\" srcset=\"S(c.jpg 2x)\"/></picture>" := by
   decide +kernel
 example : imageURLs id id (fun s => [s]) exPicture = ["a.webp 1x", "c.jpg 2x"] := by decide +kernel
-example : String.ofList (embedOutput false "twitter" "55"
+example : String.ofList (embedOutput
+    { styleDisplay := fun _ => "", visHidden := fun _ => false, byline := fun _ => false, rxUnlikely := fun _ => false,
+      rxMaybe := fun _ => false, embed := fun _ => .none, dataTable := fun _ => false, blank := fun _ => false, words := fun _ => 0 }
+    false "twitter" "55"
     (.elem 0 "blockquote" [⟨"class", "twitter-tweet"⟩] [.elem 1 "p" [] [.text 2 "w"], .elem 3 "script" [⟨"src", "x.js"⟩] []])) =
     "<div class=\"embed-placeholder\" data-type=\"twitter\" data-id=\"55\"><blockquote><p>w</p></blockquote></div>" := by
   decide +kernel
